@@ -57,6 +57,30 @@ fn main() {
     if ctx.replay.is_none() && std::env::var("RVMC_CHILD").is_err() && std::env::var("RVMC_NO_SUPERVISOR").is_err() {
         std::process::exit(supervise(&prop, &ctx));
     }
+    // replay of a recorded hang: there is no single input to re-run, the watchdog that found it is part of the check
+    if let Some(rp) = &ctx.replay {
+        if let Ok(txt) = std::fs::read_to_string(rp) {
+            if let Ok(j) = common::json::parse(&txt) {
+                let case = j.get("case");
+                if case.and_then(|c| c.get("part")).and_then(|x| x.as_str()) == Some("hang") && case.and_then(|c| c.get("where").or(c.get("worker"))).is_some() {
+                    println!("replay {}: the recorded violation is a call into rivia that did not return ({}); it is re-observed by re-running ./check {} (the watchdog stops at the first call that does not return)", prop, case.map(|c| c.to_string()).unwrap_or_default(), prop);
+                    println!("VIOLATION property={} replay={}", prop, rp.display());
+                    std::process::exit(1);
+                }
+            }
+        }
+    }
+    // coarse safety net under every parallel loop: a work item that never finishes is a hang in rivia
+    {
+        let hp = prop.clone();
+        common::par::set_stall_handler(move |msg| {
+            let sig = format!("{} hang (a call into rivia does not return)", hp);
+            eprintln!("HANG: {}", msg);
+            let m2 = msg.clone();
+            common::report::vio(&sig, move || m2, move || common::json::J::obj([("part", common::json::J::s("hang")), ("where", common::json::J::s(msg.clone()))]));
+            std::process::exit(props::hang_exit(&hp, &sig));
+        });
+    }
     // a panic inside a check's own code (outside its catch_unwind sections) must not lose the violations
     // recorded so far: report them (exit 1) or, if there are none, exit 2 as a machinery error
     let code = match std::panic::catch_unwind(std::panic::AssertUnwindSafe(|| dispatch(&prop, &ctx))) {
@@ -103,6 +127,19 @@ fn dispatch(prop: &str, ctx: &Ctx) -> i32 {
     }
 }
 
+static CHILD_PGID: std::sync::atomic::AtomicI32 = std::sync::atomic::AtomicI32::new(0);
+
+/// the supervised child runs in its own process group: take it down with the supervisor
+extern "C" fn forward_and_die(sig: i32) {
+    let pg = CHILD_PGID.load(std::sync::atomic::Ordering::SeqCst);
+    unsafe {
+        if pg > 0 {
+            libc::killpg(pg, libc::SIGKILL);
+        }
+        libc::_exit(128 + sig);
+    }
+}
+
 /// run the check in a child process; a child killed by a signal is triaged through its breadcrumbs
 fn supervise(prop: &str, ctx: &Ctx) -> i32 {
     use std::os::unix::process::ExitStatusExt;
@@ -112,7 +149,53 @@ fn supervise(prop: &str, ctx: &Ctx) -> i32 {
     let _ = std::fs::remove_dir_all(&crumbs);
     std::fs::create_dir_all(&crumbs).expect("crumb dir");
     let args: Vec<String> = std::env::args().skip(1).collect();
-    let st = std::process::Command::new(&exe).args(&args).env("RVMC_CHILD", "1").env("RVMC_CRUMB_DIR", &crumbs).status();
+    // the child gets its own process group and a wall budget: whatever happens inside, the check ends
+    let budget = std::time::Duration::from_secs(std::env::var("VERIF_WALL_BUDGET_S").ok().and_then(|x| x.parse().ok()).unwrap_or(match ctx.tier {
+        Tier::Quick => 1800,
+        Tier::Thorough => 4 * 3600,
+    }));
+    let st = {
+        use std::os::unix::process::CommandExt;
+        let mut cmd = std::process::Command::new(&exe);
+        cmd.args(&args).env("RVMC_CHILD", "1").env("RVMC_CRUMB_DIR", &crumbs).process_group(0);
+        unsafe {
+            // the child must not outlive the supervisor
+            cmd.pre_exec(|| {
+                libc::prctl(libc::PR_SET_PDEATHSIG, libc::SIGKILL);
+                Ok(())
+            });
+        }
+        match cmd.spawn() {
+            Err(e) => Err(e),
+            Ok(mut child) => {
+                CHILD_PGID.store(child.id() as i32, std::sync::atomic::Ordering::SeqCst);
+                unsafe {
+                    for sig in [libc::SIGTERM, libc::SIGINT, libc::SIGHUP] {
+                        libc::signal(sig, forward_and_die as extern "C" fn(i32) as usize);
+                    }
+                }
+                let t0 = Instant::now();
+                loop {
+                    match child.try_wait() {
+                        Ok(Some(s)) => break Ok(s),
+                        Ok(None) => {
+                            if t0.elapsed() > budget {
+                                unsafe {
+                                    libc::killpg(child.id() as i32, libc::SIGKILL);
+                                }
+                                let _ = child.wait();
+                                eprintln!("machinery: the check did not finish within its wall budget of {} s and was stopped (no verdict; VERIF_WALL_BUDGET_S overrides the budget)", budget.as_secs());
+                                let _ = std::fs::remove_dir_all(&crumbs);
+                                return 2;
+                            }
+                            std::thread::sleep(std::time::Duration::from_millis(50));
+                        },
+                        Err(e) => break Err(e),
+                    }
+                }
+            },
+        }
+    };
     let code = match st {
         Ok(s) if s.code().is_some() => s.code().unwrap(),
         Ok(s) => {
